@@ -83,6 +83,70 @@ theorem defaultStep (B : Rat) : Gen.C09.defaultStep B = B / 100 := by
 /-- documented default: the bound is the budget limit times (number of voters + 1) -/
 theorem defaultBound (B n : Rat) : Gen.C09.defaultBound B n = B * (n + 1) := rfl
 
+/-! ### the `while` loop as a whole (statement-level leaves, one per branch of `if resoluteness:`) -/
+
+/-- the WHOLE loop of `exhaustion_by_budget_increase`, resolute branch (regenerated as `Gen.C09.budgetIncreaseWhile`: loop test, the call
+    of the rule, the feasibility test BEFORE the exhaustiveness test, the budget increased and the outcome remembered, the `return` after
+    the loop): whenever the model returns an allocation (the fuel sufficed, the base rule did not raise), the regenerated loop returns
+    the same one -/
+theorem budgetIncreaseWhile (r : Rat → List Pid) (feas exh : List Pid → Bool) (stop : Bool) (step bound : Rat) :
+    ∀ (f : Nat) (cur : Rat) (prev W : List Pid),
+      Exhaustion.budgetIncrease (fun b => .ok (r b)) feas exh stop step bound f cur prev = .ok W →
+      Gen.C09.budgetIncreaseWhile r feas exh stop step bound f cur prev = W
+  | 0, cur, prev, W, h => by simp [Exhaustion.budgetIncrease] at h
+  | f + 1, cur, prev, W, h => by
+    rw [Exhaustion.budgetIncrease] at h
+    rw [Gen.C09.budgetIncreaseWhile]
+    by_cases hb : bound < cur
+    · have hn : ¬ cur ≤ bound := not_le.mpr hb
+      simp only [hb, if_true] at h
+      simp only [hn, decide_false, if_false, Bool.false_eq_true]
+      exact (Except.ok.inj h)
+    · have hle : cur ≤ bound := not_lt.mp hb
+      simp only [hb, if_false] at h
+      simp only [hle, decide_true, if_true]
+      by_cases hf : feas (r cur) = true
+      · simp only [hf, Bool.not_true, Bool.false_eq_true, if_false] at h ⊢
+        by_cases he : (stop && exh (r cur)) = true
+        · simp only [he, if_true] at h ⊢
+          exact (Except.ok.inj h)
+        · simp only [he, if_false, Bool.false_eq_true] at h ⊢
+          exact budgetIncreaseWhile r feas exh stop step bound f (cur + step) (r cur) W h
+      · have hf' : feas (r cur) = false := by simpa using hf
+        simp only [hf', Bool.not_false, if_true] at h ⊢
+        exact (Except.ok.inj h)
+
+/-- … and the irresolute branch (`any(not is_feasible(o) …)`, `any(is_exhaustive(o) …)`) -/
+theorem budgetIncreaseAllWhile (r : Rat → List (List Pid)) (feas exh : List Pid → Bool) (stop : Bool) (step bound : Rat) :
+    ∀ (f : Nat) (cur : Rat) (prev W : List (List Pid)),
+      Exhaustion.budgetIncreaseAll (fun b => .ok (r b)) feas exh stop step bound f cur prev = .ok W →
+      Gen.C09.budgetIncreaseAllWhile r feas exh stop step bound f cur prev = W
+  | 0, cur, prev, W, h => by simp [Exhaustion.budgetIncreaseAll] at h
+  | f + 1, cur, prev, W, h => by
+    rw [Exhaustion.budgetIncreaseAll] at h
+    rw [Gen.C09.budgetIncreaseAllWhile]
+    by_cases hb : bound < cur
+    · have hn : ¬ cur ≤ bound := not_le.mpr hb
+      simp only [hb, if_true] at h
+      simp only [hn, decide_false, if_false, Bool.false_eq_true]
+      exact (Except.ok.inj h)
+    · have hle : cur ≤ bound := not_lt.mp hb
+      simp only [hb, if_false] at h
+      simp only [hle, decide_true, if_true]
+      by_cases hf : (r cur).any (fun W => !feas W) = true
+      · simp only [hf, if_true] at h ⊢
+        exact (Except.ok.inj h)
+      · simp only [hf, if_false, Bool.false_eq_true] at h ⊢
+        by_cases he : (stop && (r cur).any exh) = true
+        · simp only [he, if_true] at h ⊢
+          exact (Except.ok.inj h)
+        · simp only [he, if_false, Bool.false_eq_true] at h ⊢
+          exact budgetIncreaseAllWhile r feas exh stop step bound f (cur + step) (r cur) W h
+
+/-- the regenerated loop on a concrete run: budgets 2, 3, 4 with a rule that buys `[1]` from budget 3 on; `[1]` is exhaustive -/
+example : Gen.C09.budgetIncreaseWhile (fun b => if b < 3 then [] else [1]) (fun _ => true) (fun W => W == [1]) true 1 10 5 2 [] = [1] := by
+  norm_num [Gen.C09.budgetIncreaseWhile]
+
 example : Gen.C09.withinBound 5 5 = true ∧ Gen.C09.withinBound 6 5 = false ∧ Gen.C09.defaultStep 200 = 2 := by
   norm_num [Gen.C09.withinBound, Gen.C09.defaultStep]
 
